@@ -325,6 +325,8 @@ seed("C20.R3.runtime-swapped", "C20", "C20.R3:runtime", "runtime types start the
      (RB, "        RuntimeType::CurrentThread => create_current_thread_server(config, memcache_store),\n        RuntimeType::MultiThread => create_threadpool_server(config, memcache_store),", "        RuntimeType::CurrentThread => create_threadpool_server(config, memcache_store),\n        RuntimeType::MultiThread => create_current_thread_server(config, memcache_store),"))
 seed("C20.R4.two-second-tick", "C20", "C20.R4:timer:1s-interval", "clock ticks every 2 s",
      (TIMER, "Duration::from_secs(1)", "Duration::from_secs(2)"))
+seed("C20.R4.delay-missed-ticks", "C20", "C20.R4:timer:no-dropped-ticks", "late ticks are not caught up (Delay)",
+     (TIMER, "        let mut interval = interval_at(start, Duration::from_secs(1));", "        let mut interval = interval_at(start, Duration::from_secs(1));\n        interval.set_missed_tick_behavior(tokio::time::MissedTickBehavior::Delay);"))
 seed("C20.R4.store-gets-other-timer", "C20", "C20.R4:main", "store reads a timer nobody drives",
      (MAIN, "        cli_config,\n        system_timer.clone(),", "        cli_config,\n        Arc::new(memcrs::server::timer::SystemTimer::new()),"))
 seed("C20.R4.tick-adds-nothing", "C20", "C20.R4:timer:add_second", "add_second adds 0",
@@ -365,6 +367,8 @@ neutral("N.oversized-method-min", "oversized arm uses usize::min method",
         (CONN, "let buffered = cmp::min(body_length, self.buffer.len());", "let buffered = self.buffer.len().min(body_length);"))
 neutral("N.decode-len-compare-flipped", "decode compares src.len() < body_length",
         (CODEC, "        if (self.header.body_length as usize) > src.len() {\n            return Ok(None);", "        if src.len() < (self.header.body_length as usize) {\n            return Ok(None);"))
+neutral("N.timer-explicit-burst", "the timer states the default catch-up behaviour explicitly",
+        (TIMER, "        let mut interval = interval_at(start, Duration::from_secs(1));", "        let mut interval = interval_at(start, Duration::from_secs(1));\n        interval.set_missed_tick_behavior(tokio::time::MissedTickBehavior::Burst);"), properties=["C20"])
 neutral("N.request-valid-reordered", "request_valid tests in another order and with <=",
         (CODEC, "        if self.header.extras_length > 20 {\n            return false;\n        }\n\n        if self.header.key_length > 250 {\n            return false;\n        }", "        if self.header.key_length >= 251 {\n            return false;\n        }\n\n        if !(self.header.extras_length <= 20) {\n            return false;\n        }"))
 neutral("N.handler-get-key-len-once", "hit response computes key length once",
